@@ -50,7 +50,7 @@ def cases(draw):
                    "recv_empty_at": draw(st.one_of(st.just([]), st.just([]), st.lists(st.integers(0, 6), max_size=3))),
                    "lag": draw(st.lists(st.integers(0, 2), max_size=2))},
         "dev_tape": draw(sc.dev_tape(10)),
-        "transport": {"flavour": draw(sc.flavour()), "frag": frag},
+        "transport": {"flavour": draw(sc.flavour()), "frag": frag, "wcap": draw(sc.wcap_tape(total // 8 + 2000, p_none=0.7))},
         "connect": {},
         "ops": [{"op": "pull", "path": path, "dest": draw(st.sampled_from(["bytesio", "file"])), "cb": draw(st.sampled_from([None, None, "rec", "raise", "raise-base", "reenter"]))}],
         "_arm": arm,
